@@ -398,6 +398,24 @@ def substrates(data, rng):
             fh.write(data)
         f = open(base + '.raw', 'rb', buffering=0)
         return f, f.close
+    def mk_after_header(opener, suffix, header=b'\x30\x03HDR'):
+        """a seekable stream the caller has already read a header from: decoding starts where the stream stands"""
+        def mk():
+            path = base + suffix
+            with opener(path, 'wb') as fh:
+                fh.write(header + data)
+            f = opener(path, 'rb')
+            got = f.read(len(header))
+            assert got == header
+
+            return f, f.close
+        return mk
+
+    def mk_raw_after_header():
+        f = SeekableRaw(b'\x05\x00\x05\x00' + data)
+        f.read(4)
+        return f, (lambda: None)
+
     def mk_pipe(header, how):
         """a buffered reader over an OS pipe (non-seekable); with a header the caller has consumed first, so that the
         reader's own read-ahead buffer already holds the start of the data"""
@@ -463,6 +481,9 @@ def substrates(data, rng):
         ('gzip', mk_gzip),
         ('zip', mk_zip),
         ('seekable-raw', lambda: (SeekableRaw(data), nothing)),
+        ('file-after-header-read', mk_after_header(open, '.hdr')),
+        ('gzip-after-header-read', mk_after_header(lambda p_, m: gzip.open(p_, m, compresslevel=1) if 'w' in m else gzip.open(p_, m), '.hgz')),
+        ('seekable-raw-after-header-read', mk_raw_after_header),
         ('nonseekable', lambda: (complete_nonseekable(data), nothing)),
         ('nonseekable-short-reads', lambda: (complete_nonseekable(data, mr), nothing)),
         ('pipe-buffered', mk_pipe(b'', None)),
